@@ -723,6 +723,11 @@ def stop_while_a_child_is_stopping_itself(res, gate_ms):
     res.evaluations += 1
     res.count("stop-while-child-stops-itself.scenarios")
     res.hashes.add(h(["stop-while-stopping", gate_ms]))
+    if out["stop_took_ms"] >= 1800 and not out["gate_open_at_return"]:
+        # stop() waits for another thread's teardown for a bounded time (2 s); on a machine so loaded
+        # that the gate timer itself is that late, giving up is the documented behaviour: not judged
+        res.count("stop-while-child-stops-itself.bounded-wait-expired-unjudged")
+        return
     if out["g2_status_at_return"] != "stopped" or out["g2_entries_after_return"]:
         res.violation("C14:stop-returned-while-a-descendant-was-still-live/sync",
                       "root.stop() returned after %d ms while a grandchild was %r; it entered %d more state(s) "
